@@ -45,6 +45,9 @@ type World struct {
 
 	allFuncs    map[*ssa.Function]bool
 	phiVisiting map[*ssa.Phi]bool
+	// CanonI: inline simple pure helpers while rendering
+	inlineHelpers bool
+	inlineEnv     []map[*ssa.Parameter]string
 	// enumPaths records the branch taken at every If as "?T:<cond>" / "?F:<cond>"
 	branchMarkers bool
 
